@@ -15,7 +15,8 @@ Protocol (`c10 kind=<k> …`, answered by `handleSurf`; `Model/C10.lean` offers 
   kind=surfhaar n0= n1= y= x= w=
       -> `ok= n= term= sum=`; `haar_x(integral, y, x, w)` followed by `haar_y(integral, y, x, w)` (16 reads).
   kind=surfpyramid n0= n1= noct= nint= init= [noguard=<0|1>, default 0]
-      -> `guard=<0|1> ok= n= term= sum= dims=<d1,d2 per octave> wsum=<sum of the written pyramid coordinates>`;
+      -> `guard=<0|1> ok= n= term= sum= dims=<d1,d2 per octave> wsum=<sum of the written pyramid coordinates>
+         imax= imin=` (largest / smallest of the `int`s of `pyramidInts` over all octaves and intervals, folded from 0 / 1);
          `build_pyramid` behind `check_pyramid_parameters` (guard=0: the entry point raises ValueError, nothing is
          accessed: `n=0`); `noguard=1` evaluates the loops regardless (a step of 0 shows as `term=0`).
   kind=ipscan nint= nr= nc= bs=
@@ -172,11 +173,11 @@ def pyramidAccesses (n0 n1 noct nint init : Int) : List SAcc :=
 def pyramidDone (noct init : Int) : Bool :=
   (List.range noct.toNat).all fun (o : Nat) => decide (0 < stepSize init o)
 
-/-- the `int` values `build_pyramid` computes for octave `o`, interval `i` that do not depend on the image:
-    `step_size`, `get_border_size`, `border_size`, `lobe_size`, `3*lobe_size`, `2*lobe_size-1`, `lobe_offset` -/
+/-- the `int` values `build_pyramid` computes for octave `o`, interval `i` before it looks at the image:
+    `step_size`, `get_border_size`, `border_size`, `lobe_size`, `lobe_offset` -/
 def pyramidInts (nint init : Int) (o : Nat) (i : Int) : List Int :=
   let l := lobeSize o i
-  [stepSize init o, borderSize o nint, borderSize o nint * stepSize init o, l, 3 * l, 2 * l - 1, Int.tdiv l 2 + 1]
+  [stepSize init o, borderSize o nint, borderSize o nint * stepSize init o, l, Int.tdiv l 2 + 1]
 
 /-! ## `get_interest_points` -/
 
@@ -279,7 +280,7 @@ def handleSurf (a : Args) : Option String :=
     let n0 := a.int "n0"; let n1 := a.int "n1"
     let noct := a.int "noct"; let nint := a.int "nint"; let init := a.int "init"
     let g := checkPyramidParameters noct nint init
-    if !g && a.int "noguard" = 0 then some ("guard=0 " ++ sReport [] ++ " dims=- wsum=0") else
+    if !g && a.int "noguard" = 0 then some ("guard=0 " ++ sReport [] ++ " dims=- wsum=0 imax=0 imin=1") else
     let l := pyramidAccesses n0 n1 noct nint init
     let dims := (List.range noct.toNat).flatMap fun (o : Nat) =>
       let d := pyramidDims n0 n1 nint init o
@@ -290,8 +291,9 @@ def handleSurf (a : Args) : Option String :=
       (sRangeI nint).flatMap fun i =>
         (sRangeStep border (n0 - border) step).flatMap fun y =>
           (sRangeStep border (n1 - border) step).flatMap fun x => pyramidWrite n0 n1 nint init o i y x
+    let ints := (List.range noct.toNat).flatMap fun (o : Nat) => (sRangeI nint).flatMap fun i => pyramidInts nint init o i
     some (s!"guard={b2s g} " ++ sReport l (pyramidDone noct init) ++
-      s!" dims={showInts dims} wsum={(writes.map (·.i)).foldl (· + ·) 0}")
+      s!" dims={showInts dims} wsum={(writes.map (·.i)).foldl (· + ·) 0} imax={ints.foldl max 0} imin={ints.foldl min 1}")
   | "ipscan" => some (sReport (ipScanAccesses (a.int "nint") (a.int "nr") (a.int "nc") (a.int "bs")))
   | "surfdesc" => some (sReport descIndexAccesses ++ s!" nangle={angleGrid.length}")
   | "descsample" =>
